@@ -62,11 +62,42 @@ def project(cs, evs):
     return out
 
 
+def bind_neighbours(rng, per=8):
+    """printable characters whose UTF-8 encoding shares its first byte(s) with a multibyte character of a DEFAULT bound sequence
+    (the dispatcher consumes those bytes as a possible prefix of the bind before it knows better)"""
+    import unicodedata
+    out = set()
+    for km in ("emacs", "vi-insert", "emacs-meta", "emacs-ctlx"):
+        for seq in km_seqs(km):
+            for ch in seq.decode("utf-8", "ignore"):
+                enc = ch.encode("utf-8")
+                if len(enc) < 2:
+                    continue
+                for k in range(1, len(enc)):
+                    found, tries = 0, 0
+                    while found < per and tries < 400:
+                        tries += 1
+                        cand = enc[:k] + bytes(rng.randrange(0x80, 0xC0) for _ in range(len(enc) - k))
+                        try:
+                            c = cand.decode("utf-8")
+                        except UnicodeDecodeError:
+                            continue
+                        if len(c) == 1 and c != ch and unicodedata.category(c)[0] in "LNPS" and c not in out:
+                            out.add(c)
+                            found += 1
+    return sorted(out)
+
+
 def run(rep, tier, seed):
     rng = random.Random(seed * 6029 + 37)
     wd = workdir("c02")
     model_check(rep, tier, os.path.join(wd, "mc"))
     maxlen = 3 if tier == "quick" else 4
+    nb = bind_neighbours(rng)
+    if nb:
+        CLASSES["n"] = rng.choice(nb)
+        POOLS["n"] = "".join(nb)
+    rep.extra["bind_neighbour_characters"] = len(nb)
     strings = []
     for n in range(1, maxlen + 1):
         for t in itertools.product(CLASSES, repeat=n):
@@ -146,8 +177,8 @@ def run(rep, tier, seed):
         return out
 
     run_session_property(rep, cases, project, "TypedTrace", "TypedTrace.cfg", "c02-run", nontrivial=nontrivial)
-    rep.rule = ("every string of length <= %d over nine character classes {ASCII letter, space, quote, backslash, punctuation, Latin-1, wide CJK, "
-                "astral, combining mark} plus seeded strings of 5..40 characters from larger class pools, typed one character per read, as one "
+    rep.rule = ("every string of length <= %d over ten character classes {ASCII letter, space, quote, backslash, punctuation, Latin-1, wide CJK, "
+                "astral, combining mark, fullwidth, characters sharing leading UTF-8 bytes with a default bound sequence} plus seeded strings of 5..40 characters from larger class pools, typed one character per read, as one "
                 "paste, or in random groups, in emacs and vi-insert; ASCII strings additionally under all 16 settings of convert-meta / "
                 "input-meta / output-meta / enable-meta-key; non-trivial = distinct non-ASCII texts returned" % maxlen)
     rep.exhaustive = True
